@@ -413,7 +413,7 @@ func runCrashCase(cc *crashCase) ([]Deviation, *ChildResult, string, error) {
 
 func TestC10(t *testing.T) {
 	st := statsFor("C10", "TestC10")
-	st.Rule = "fault enumeration: rapid generates a history (documents, xattrs, deletes, purge, design docs, view queries, collection drop / re-creation); a dry-run child counts how often each hook point (tx.begin, cas.afterDocWrite, tx.beforeCommit, tx.afterCommit, cas.beforePost, meta.beforePost, subdoc.betweenReadWrite) is reached; for drawn (quick) or all (thorough, short histories) <hook, occurrence> pairs a child replays the history on a fresh on-disk bucket, acknowledging each returned call, and SIGKILLs itself at that point; this process then opens the directory and compares every key with the last acknowledged state (in-flight call: before or complete result), UUID, collections, design docs, incremental-vs-fresh view, and continues with generated operations; non-trivial = the kill lands inside a transaction or between sub-steps of a call that is not the first or last of a history containing an xattr write and a delete; distinct by <history signature, hook, occurrence>"
+	st.Rule = "fault enumeration: rapid generates a history (documents, xattrs, deletes, purge, design docs, view queries, collection drop / re-creation); a dry-run child counts how often each hook point (tx.begin, cas.afterDocWrite, tx.beforeCommit, tx.afterCommit, cas.beforePost, meta.beforePost, subdoc.betweenReadWrite) is reached; for drawn (quick) or all (thorough, short histories) <hook, occurrence> pairs (a third of the histories with a purge / design-document / collection call place one kill inside that call) a child replays the history on a fresh on-disk bucket, acknowledging each returned call, and SIGKILLs itself at that point; this process then opens the directory and compares every key with the last acknowledged state (in-flight call: before or complete result), UUID, collections, design docs, incremental-vs-fresh view, and continues with generated operations; non-trivial = the kill lands inside a transaction or between sub-steps of a call that is not the first or last of a history containing an xattr write and a delete; distinct by <history signature, hook, occurrence>"
 	judge := func(devs []Deviation) []Deviation {
 		var out []Deviation
 		for _, d := range devs {
